@@ -431,7 +431,7 @@ func (g *Gen) op(op string, v *view) []byte {
 		if s == nil {
 			return nil
 		}
-		return g.tx(s, &oracletypes.MsgTip{Tipper: s.Bech(), QueryData: g.someQuery(v), Amount: sdk.NewInt64Coin(Denom, g.amount(g.c.W.Cfg.UserBalance))})
+		return g.tx(s, &oracletypes.MsgTip{Tipper: s.Bech(), QueryData: g.someQuery(v), Amount: rawCoin(g.amount(g.c.W.Cfg.UserBalance))})
 	case "submit":
 		var s *Account
 		if len(v.reporters) > 0 && g.r.Chance(0.92) {
@@ -499,7 +499,7 @@ func (g *Gen) op(op string, v *view) []byte {
 		if s == nil {
 			return nil
 		}
-		return g.tx(s, &stakingtypes.MsgDelegate{DelegatorAddress: s.Bech(), ValidatorAddress: g.valAddr(v, false), Amount: sdk.NewInt64Coin(Denom, g.amount(g.c.W.Cfg.UserBalance))})
+		return g.tx(s, &stakingtypes.MsgDelegate{DelegatorAddress: s.Bech(), ValidatorAddress: g.valAddr(v, false), Amount: rawCoin(g.amount(g.c.W.Cfg.UserBalance))})
 	case "undelegate", "redelegate", "cancelUnbond":
 		s := g.free(g.acct)
 		if s == nil {
@@ -521,9 +521,9 @@ func (g *Gen) op(op string, v *view) []byte {
 		}
 		switch op {
 		case "undelegate":
-			return g.tx(s, &stakingtypes.MsgUndelegate{DelegatorAddress: s.Bech(), ValidatorAddress: val, Amount: sdk.NewInt64Coin(Denom, amt)})
+			return g.tx(s, &stakingtypes.MsgUndelegate{DelegatorAddress: s.Bech(), ValidatorAddress: val, Amount: rawCoin(amt)})
 		case "redelegate":
-			return g.tx(s, &stakingtypes.MsgBeginRedelegate{DelegatorAddress: s.Bech(), ValidatorSrcAddress: val, ValidatorDstAddress: g.valAddr(v, false), Amount: sdk.NewInt64Coin(Denom, amt)})
+			return g.tx(s, &stakingtypes.MsgBeginRedelegate{DelegatorAddress: s.Bech(), ValidatorSrcAddress: val, ValidatorDstAddress: g.valAddr(v, false), Amount: rawCoin(amt)})
 		default:
 			ubds, _ := a.StakingKeeper.GetUnbondingDelegations(v.ctx, s.Addr, 5)
 			if len(ubds) == 0 {
@@ -535,7 +535,7 @@ func (g *Gen) op(op string, v *view) []byte {
 			if g.r.Chance(0.5) && am > 1 {
 				am = am / 2
 			}
-			return g.tx(s, &stakingtypes.MsgCancelUnbondingDelegation{DelegatorAddress: s.Bech(), ValidatorAddress: u.ValidatorAddress, Amount: sdk.NewInt64Coin(Denom, am), CreationHeight: e.CreationHeight})
+			return g.tx(s, &stakingtypes.MsgCancelUnbondingDelegation{DelegatorAddress: s.Bech(), ValidatorAddress: u.ValidatorAddress, Amount: rawCoin(am), CreationHeight: e.CreationHeight})
 		}
 	case "createValidator":
 		w := g.c.W
@@ -550,7 +550,7 @@ func (g *Gen) op(op string, v *view) []byte {
 		stake := []int64{100_000_000, 300_000_000, 550_000_000}[g.r.Pick(3)]
 		msg := &stakingtypes.MsgCreateValidator{
 			Description: stakingtypes.Description{Moniker: k.Op.Name}, Commission: stakingtypes.NewCommissionRates(math.LegacyNewDecWithPrec(5, 2), math.LegacyOneDec(), math.LegacyNewDecWithPrec(1, 2)),
-			MinSelfDelegation: math.OneInt(), ValidatorAddress: k.ValAdr.String(), Pubkey: pkAny, Value: sdk.NewInt64Coin(Denom, stake),
+			MinSelfDelegation: math.OneInt(), ValidatorAddress: k.ValAdr.String(), Pubkey: pkAny, Value: rawCoin(stake),
 		}
 		g.extraVals++
 		return g.tx(k.Op, msg)
@@ -559,7 +559,7 @@ func (g *Gen) op(op string, v *view) []byte {
 		if s == nil {
 			return nil
 		}
-		return g.tx(s, &banktypes.MsgSend{FromAddress: s.Bech(), ToAddress: g.acct().Bech(), Amount: sdk.NewCoins(sdk.NewInt64Coin(Denom, g.amount(1_000_000_000)))})
+		return g.tx(s, &banktypes.MsgSend{FromAddress: s.Bech(), ToAddress: g.acct().Bech(), Amount: sdk.Coins{rawCoin(g.amount(1_000_000_000))}})
 	case "proposeDispute":
 		s := g.free(g.acct)
 		if s == nil || len(g.Reports) == 0 {
@@ -621,7 +621,7 @@ func (g *Gen) op(op string, v *view) []byte {
 				}
 			}
 		}
-		return g.tx(s, &disputetypes.MsgProposeDispute{Creator: s.Bech(), Report: &rep, DisputeCategory: cat, Fee: sdk.NewInt64Coin(Denom, fee), PayFromBond: fromBond})
+		return g.tx(s, &disputetypes.MsgProposeDispute{Creator: s.Bech(), Report: &rep, DisputeCategory: cat, Fee: rawCoin(fee), PayFromBond: fromBond})
 	case "addFee":
 		s := g.free(g.acct)
 		if s == nil || len(v.disputes) == 0 {
@@ -649,7 +649,7 @@ func (g *Gen) op(op string, v *view) []byte {
 				s = x
 			}
 		}
-		return g.tx(s, &disputetypes.MsgAddFeeToDispute{Creator: s.Bech(), DisputeId: d.DisputeId, Amount: sdk.NewInt64Coin(Denom, amt), PayFromBond: fromBond})
+		return g.tx(s, &disputetypes.MsgAddFeeToDispute{Creator: s.Bech(), DisputeId: d.DisputeId, Amount: rawCoin(amt), PayFromBond: fromBond})
 	case "vote":
 		if len(v.disputes) == 0 {
 			return nil
@@ -726,7 +726,7 @@ func (g *Gen) op(op string, v *view) []byte {
 		if g.r.Chance(g.P.Hostile) {
 			rcp = []string{"", "0x" + rcp, rcp[:10], rcp + rcp, "zz"}[g.r.Pick(5)]
 		}
-		return g.tx(s, &bridgetypes.MsgWithdrawTokens{Creator: s.Bech(), Recipient: rcp, Amount: sdk.NewInt64Coin(Denom, g.amount(g.c.W.Cfg.UserBalance))})
+		return g.tx(s, &bridgetypes.MsgWithdrawTokens{Creator: s.Bech(), Recipient: rcp, Amount: rawCoin(g.amount(g.c.W.Cfg.UserBalance))})
 	case "claimDeposits":
 		s := g.free(g.user)
 		if s == nil {
@@ -838,7 +838,7 @@ func (g *Gen) op(op string, v *view) []byte {
 		default:
 			m = &minttypes.MsgInit{Authority: gov}
 		}
-		pm, err := govv1.NewMsgSubmitProposal([]sdk.Msg{m}, sdk.NewCoins(sdk.NewInt64Coin(Denom, 10_000_000)), s.Bech(), "", "t", "s", false)
+		pm, err := govv1.NewMsgSubmitProposal([]sdk.Msg{m}, sdk.Coins{rawCoin(10_000_000)}, s.Bech(), "", "t", "s", false)
 		if err != nil {
 			return nil
 		}
@@ -888,7 +888,7 @@ func (g *Gen) op(op string, v *view) []byte {
 		}
 		var msgs []sdk.Msg
 		for i := 0; i < 2+g.r.Pick(3); i++ {
-			amt := sdk.NewInt64Coin(Denom, g.amount(1_000_000_000))
+			amt := rawCoin(g.amount(1_000_000_000))
 			if g.r.Chance(0.7) {
 				msgs = append(msgs, &stakingtypes.MsgDelegate{DelegatorAddress: s.Bech(), ValidatorAddress: g.valAddr(v, false), Amount: amt})
 			} else {
@@ -913,3 +913,6 @@ func min(a, b int) int {
 	}
 	return b
 }
+
+// rawCoin builds a coin without validation so that zero and negative amounts reach the chain as hostile inputs.
+func rawCoin(amt int64) sdk.Coin { return sdk.Coin{Denom: Denom, Amount: math.NewInt(amt)} }
